@@ -278,6 +278,76 @@ def Item.clsN (nm : String) (kw first : Tok) (pairs : List (Tok × Tok)) (ms : L
       · show hdr.kind = .cls ∧ hdr.access = _ ∧ hdr.cls.typename = _
         rw [← hhdr, ← hctv]; exact ⟨rfl, rfl, rfl⟩
 
+/-- **a class that declares constructors / destructors, nested in a class body, is a member**: its own members are read under ITS key's default
+    access level, whatever level is in force outside, and the outer level is in force again after it -/
+def Member.clsN (nm : String) (kw first : Tok) (pairs : List (Tok × Tok)) (ms : List (MemberN env F (core F (D + 1 + 1 + 1 + 1)) (nameIs nm))) :
+    Member env F (core F (D + 1 + 1 + 1 + 1)) where
+  At := fun b b' => ∃ (ob cl semi : Tok) (b1 b2 : Buf),
+    isClassKey kw.value = true ∧ kw.type = kw.value ∧ first.type = "NAME" ∧ plainVal first.value = true ∧
+    (∀ p ∈ pairs, p.1.type = "DBL_COLON" ∧ p.2.type = "NAME" ∧ plainVal p.2.value = true) ∧ ob.type = "{" ∧
+    cl.type = "}" ∧ semi.type = ";" ∧ pairs.length + 2 ≤ F ∧
+    (PQSeg.name first.value none :: pairs.map (fun p => PQSeg.name p.2.value none)).getLast?.bind PQSeg.nameAttr = some nm ∧
+    Yields env.cfg b (kw :: first :: (pairs.flatMap (fun p => [p.1, p.2]) ++ [ob])) b1 ∧ MSeqAtN ms b1 b2 ∧
+    Yields env.cfg b2 [cl, semi] b'
+  Ev := fun blk rest acc evs => BlockEvents blk
+    (fun h => h.kind = .cls ∧ h.access = some (defaultAccess kw.value) ∧ h.cls.access = some acc ∧
+      h.cls.typename = .mk (.name first.value none :: pairs.map (fun p => .name p.2.value none)) (some kw.value) false)
+    (fun nb mid => MSeqEvN nb (blk :: rest) ms (defaultAccess kw.value) mid) evs
+  accOut := id
+  size := mseqSizeN ms + 2
+  at_sigEq := by
+    intro b b' k ⟨ob, cl, semi, b1, b2, h1, h2, h3, h4, h5, h6, h7, h8, h9, hN, hy, hm, hy2⟩ hs
+    obtain ⟨k1, hy', hs1⟩ := hy.sigEq hs
+    obtain ⟨k2, hm', hs2⟩ := hm.sigEq hs1
+    obtain ⟨k', hy2', hs'⟩ := hy2.sigEq hs2
+    exact ⟨k', ⟨ob, cl, semi, k1, k2, h1, h2, h3, h4, h5, h6, h7, h8, h9, hN, hy', hm', hy2'⟩, hs'⟩
+  sound := by
+    intro w b' blk rest acc hst hk hacc hmu ⟨ob, cl, semi, b1, b2, h1, h2, h3, h4, h5, h6, h7, h8, h9, hN, hy, hm, hy2⟩
+    have hfa : ∀ n, ¬ env.faultAt = some n := by intro n; rw [hnf]; simp
+    obtain ⟨bk, t0, hy⟩ := hy.cons_inv
+    obtain ⟨bf, t1, hy⟩ := hy.cons_inv
+    obtain ⟨bmid, hyp, hy⟩ := hy.split
+    obtain ⟨d, bD, w', ct, _, hbuf', hctv, hst', hev', _, _, hmu', _, hi⟩ :=
+      toplevel_class_head env hp F (D + 1 + 1) w kw first pairs ob bk bf bmid b1 blk rest hst hmu (hfa _) t0 h1 h2 t1 h3 h4 h5 hyp
+        hy.single_inv h6 h9
+    generalize hhdr : classHdr ct first pairs blk d = hdr at hi
+    have hPst : (pushedWorld env hdr w').stack = pushedBlock hdr w' :: blk :: rest := by
+      show pushedBlock hdr w' :: w'.stack = _; rw [hst', hst]
+    have hPmu : (pushedWorld env hdr w').muted = false := hskip _ _
+    obtain ⟨w7, mid, ⟨⟨ws, hch, hl⟩, hb7, ⟨nb7, hst7, hsb7, _⟩, hev7, hmu7⟩, hE⟩ :=
+      mseq_soundN ms (pushedWorld env hdr w') b2 (pushedBlock hdr w') (blk :: rest) (defaultAccess kw.value) hPst
+        (by show hdr.kind = .cls; rw [← hhdr]; rfl) (by show nameIs nm hdr; rw [← hhdr]; exact hN) (by show hdr.access = _; rw [← hhdr, ← hctv]; rfl) hPmu
+        (by show MSeqAtN ms w'.buf b2; rw [hbuf']; exact hm)
+    obtain ⟨k', hy2', hs'⟩ := hy2.sigEq hb7
+    obtain ⟨kc, tc, hy2'⟩ := hy2'.cons_inv
+    obtain ⟨n, hn⟩ := segs_getLast pairs first.value
+    obtain ⟨wA, cc, hsA, _, hend⟩ := toplevel_class_end env hp F (core F (D + 1 + 1 + 1 + 1)) w7 cl semi kc k' nb7 blk rest n none hst7
+      (by rw [← hsb7.2.2.2]; rfl) (by rw [← hsb7.2.1]; show hdr.kind = .cls; rw [← hhdr]; rfl)
+      (by rw [← hsb7.2.1]; show hdr.typedef = false; rw [← hhdr]; rfl)
+      (by rw [← hsb7.2.1]; show hdr.cls.typename.segments.getLast? = _; rw [← hhdr]; exact hn)
+      (fun _ => ⟨acc, hacc⟩) tc h7 hy2'.single_inv h8
+    obtain ⟨w3, hi3, hb3, hs3⟩ := hend _ (deliver_passing env { wA with mainTok := some cc }
+      (mkEvent { wA with mainTok := some cc } .blockEnd nb7 (some blk.id))
+      (by show wA.muted = false; rw [hsA.muted]; exact hmu7) (hfa _))
+    refine ⟨w3, pushEvent hdr w' :: (mid ++ [mkEvent { wA with mainTok := some cc } .blockEnd nb7 (some blk.id)]),
+      ⟨⟨pushedWorld env hdr w' :: (ws ++ [w3]), .cons hi (hch.append (.one hi3)), by simp [hl]⟩, ?_, ⟨blk, hs3.stack, .refl _, hacc⟩, ?_, ?_⟩, ?_⟩
+    · rw [hb3]; exact hs'
+    · rw [hs3.events]
+      show wA.events ++ _ = _
+      rw [hsA.events, hev7]
+      show (w'.events ++ [pushEvent hdr w']) ++ mid ++ _ = _
+      rw [hev']; simp
+    · rw [hs3.muted]
+      show nb7.priorMuted = false
+      rw [← hsb7.2.2.1]; show w'.muted = false; rw [hmu']; exact hmu
+    · refine ⟨pushedBlock hdr w', _, _, mid, rfl, rfl, rfl, ?_, rfl, ?_, hE, rfl, hsb7.1.symm, rfl⟩
+      · show w'.stack.head?.map (·.id) = _; rw [hst', hst]; rfl
+      · show hdr.kind = .cls ∧ hdr.access = _ ∧ hdr.cls.access = _ ∧ hdr.cls.typename = _
+        rw [← hhdr, ← hctv]
+        refine ⟨rfl, rfl, ?_, rfl⟩
+        show (if blk.hdr.kind = .cls then blk.access else none) = some acc
+        rw [if_pos hk, hacc]
+
 end kinds
 
 end Cxx
